@@ -516,6 +516,11 @@ def judge_probe(rec, rnd, tmp, k):
     base_rows = 'Date,Description,Amount\n2025-01-05,EXISTING VENDOR ONE,12.00\n2025-01-06,ANOTHER EXISTING THING,30.00\n2025-01-07,ZZTOP WHSE #0012 WA,%s\n' % \
         rnd.choice(['340.20', '7.00', '1250.00'])
     desc = rnd.choice(['PROBE %s STORE', '%s STORE', 'SQ *%s PROBE', 'aplpay %s', 'ZQ %s 77', 'QQQ NOTHING %s']) % rnd.choice(PROBE_WORDS + ['xx'])
+    if rf.transforms and rnd.random() < .6:
+        # a description the file's transform rewrites at its beginning and that (probably) no rule matches: the merchant name derived for it is
+        # derived from the same text by every command
+        desc = rnd.choice(['SQ *', 'APLPAY ', 'aplpay ', 'sq *']) + rnd.choice(['QQQ NOTHING xx', 'blue bottle coffee', 'ZZTOP']) + rnd.choice(['', ' 77'])
+        rec.count('description_probes_rewritten_by_a_transform')
     amount = rnd.choice([5.0, 15.0, 150.0, 600.0])
     settings = {'year': 2025, 'merchants_file': 'config/merchants.rules', 'rule_mode': mode,
                 'data_sources': [{'name': 'Main', 'file': 'data/main.csv', 'format': '{date:%Y-%m-%d},{description},{amount}'}]}
